@@ -79,10 +79,16 @@ pub fn gen_clock(rng: &mut Prng, cfg: &ClockCfg) -> (ClockSpec, Vec<(u32, u8)>) 
         // start close below u64::MAX so that the readings cross the wrap-around
         u64::MAX - rng.below(50_000)
     } else {
-        match rng.below(4) {
+        match rng.below(6) {
             0 => rng.range(1, 1 << 20),
             1 => rng.range(1 << 31, (1 << 33) + 77),
             2 => rng.u64() >> rng.below(30),
+            3 => {
+                // just below a power-of-two boundary of the reading itself (2^31, 2^32, 2^63, ...):
+                // the readings of this run then cross it (sign boundaries of i32/i64 views of a reading)
+                let k = *rng.pick(&[31u32, 32, 33, 62, 63]);
+                (1u64 << k).wrapping_sub(rng.range(1, 200_000))
+            }
             _ => 1_600_000_000_000_000_000u64.wrapping_add(rng.below(1 << 40)),
         }
     };
